@@ -26,11 +26,57 @@ impl<U, V> LessThanOrEquals<U, V> {
 
 impl<U: View, V: View> Prune for LessThanOrEquals<U, V> {
     fn prune(&self, ctx: &mut Context) -> Option<()> {
+        if is_float_constant(self.y, ctx) && is_float_variable(self.x, ctx) {
+            return bound_float_variable_above(self.x, self.y.max(ctx), ctx);
+        }
+        if is_float_constant(self.x, ctx) && is_float_variable(self.y, ctx) {
+            return bound_float_variable_below(self.y, self.x.min(ctx), ctx);
+        }
+
         let _max = self.x.try_set_max(self.y.max(ctx), ctx)?;
         let _min = self.y.try_set_min(self.x.min(ctx), ctx)?;
 
         Some(())
     }
+}
+
+/// A float-typed view without underlying variable.
+pub(crate) fn is_float_constant(view: impl View, ctx: &Context) -> bool {
+    use crate::variables::views::ViewType;
+    view.result_type(ctx) == ViewType::Float && view.get_underlying_var().is_none()
+}
+
+/// A float-typed view of a variable.
+pub(crate) fn is_float_variable(view: impl View, ctx: &Context) -> bool {
+    use crate::variables::views::ViewType;
+    view.result_type(ctx) == ViewType::Float && view.get_underlying_var().is_some()
+}
+
+/// `x <= c` for a float variable `x` and a float constant `c`.
+///
+/// Only the variable's setter decides: it fails when `c` is out of reach beyond the tolerance of
+/// a float bound. The constant cannot be tightened, and re-testing it exactly (`x.min <= c`) is
+/// hopeless once the bounds of `x` are quantised to its step grid: `x >= 4.375` at step 0.1 leaves
+/// `x.min = 4.4`, which no exact test against `x <= 4.375` accepts, although the setter takes the
+/// two bounds as consistent. When `c` lies below `x.min` within that tolerance the setter may
+/// leave `x` as it is; `x` is then fixed at its minimum, the closest it gets to `c`.
+pub(crate) fn bound_float_variable_above(x: impl View, c: crate::variables::Val, ctx: &mut Context) -> Option<()> {
+    let _max = x.try_set_max(c, ctx)?;
+    let min = x.min(ctx);
+    if c < min {
+        let _max = x.try_set_max(min, ctx)?;
+    }
+    Some(())
+}
+
+/// `c <= x` for a float variable `x` and a float constant `c`: see `bound_float_variable_above`.
+pub(crate) fn bound_float_variable_below(x: impl View, c: crate::variables::Val, ctx: &mut Context) -> Option<()> {
+    let _min = x.try_set_min(c, ctx)?;
+    let max = x.max(ctx);
+    if c > max {
+        let _min = x.try_set_min(max, ctx)?;
+    }
+    Some(())
 }
 
 impl<U: View, V: View> Propagate for LessThanOrEquals<U, V> {
